@@ -27,6 +27,7 @@ type LoopSpec struct {
 	Invariants []Clause
 	Modifies   []string
 	HasMod     bool
+	Entry      []Clause
 }
 
 type FuncContract struct {
@@ -562,6 +563,15 @@ func (db *ContractDB) parseFile(path, pkgPath string, trusted bool) error {
 						return fmt.Errorf("%s: %v", src, err)
 					}
 					ls.Invariants = append(ls.Invariants, Clause{Kind: "invariant", Label: label, Text: text, Expr: e, Src: src})
+				case "entry":
+					// loop N entry E: holds when the loop is reached (checked there only, never assumed): pins the
+					// start value of the loop variable, which an invariant cannot do
+					label, text := splitLabel(body)
+					e, err := parseSpecExpr(text)
+					if err != nil {
+						return fmt.Errorf("%s: %v", src, err)
+					}
+					ls.Entry = append(ls.Entry, Clause{Kind: "loop-entry", Label: label, Text: text, Expr: e, Src: src})
 				case "iteration-ensures":
 					label, text := splitLabel(body)
 					e, err := parseSpecExpr(text)
